@@ -28,8 +28,7 @@ for f, s in sorted(files.items()):
         for pat in PATS:
             if re.search(pat, code):
                 sites.append((f, {0: "unreachable", 1: ".unwrap", 2: ".expect", 3: "panic", 4: "as_bytes[0]", 5: "todo", 6: "unimplemented"}[PATS.index(pat)]))
-expected = sorted([("lib.rs", "as_bytes[0]"), ("lib.rs", "as_bytes[0]"), ("lib.rs", "unreachable"), ("lib.rs", "unreachable"),
-                   ("resolve_type.rs", ".unwrap")])
+expected = sorted([("lib.rs", "as_bytes[0]"), ("lib.rs", "as_bytes[0]"), ("lib.rs", "unreachable"), ("lib.rs", "unreachable")])
 got = sorted((f, k) for f, k in sites)
 if got != expected:
     bad.append(f"panic sites changed: expected {expected}, found {got}")
